@@ -149,6 +149,18 @@ Theorem C04_skeleton_functions : forall k, skels_ok k = true -> forall d o t, ge
   /\ (forall x, sem_parse_sk (sk_parse k) t x = sem_parse t x)
   /\ sk_parsestring k = true /\ sk_parsegeneric k = true.
 Proof. exact skel_functions. Qed.
+(* history independence: Values() and StringValues() hand out fresh slices, so whatever callers WROTE into earlier
+   results (h), later Values() calls return — and IsValid decides — the same as on first use; a Values() returning
+   the table itself (ValAliasOfTable, the seeded change C04-32) is not well-formed and loses this *)
+Theorem C04_history_independent : forall k, skels_ok k = true -> forall t h,
+  sem_values_hist k t h = sem_values_sk k t /\ forall e, sem_isvalid_hist k t h e = sem_isvalid_sk k t e.
+Proof. exact history_independent. Qed.
+Theorem C04_alias_refuted :
+  skels_ok alias_skels = false
+  /\ exists t, gen yw_defn yw_opts = Built t
+       /\ sem_values_hist alias_skels t [HWriteValues 0 2; HWriteValues 2 0] = [2; 1; 0]
+       /\ sem_values_hist cur_skels t [HWriteValues 0 2; HWriteValues 2 0] = [0; 1; 2].
+Proof. exact alias_not_history_independent. Qed.
 Theorem C04_skels_current_ok : skels_ok cur_skels = true.
 Proof. exact cur_skels_ok. Qed.
 
@@ -176,6 +188,8 @@ Proof. exact dedup_orig_refuted. Qed.
 
 Print Assumptions C04_skeleton_functions.
 Print Assumptions C04_skels_current_ok.
+Print Assumptions C04_history_independent.
+Print Assumptions C04_alias_refuted.
 Print Assumptions C04_trait_const_sound.
 Print Assumptions C04_parse_reject_def.
 Print Assumptions C04_accepts_notraits.
